@@ -416,6 +416,8 @@ pub fn run_c09(ctx: &Ctx) -> Report {
     // (b) structured permutations / duplications on the skeletons
     let mut skels = skeletons(true, !ctx.quick());
     skels.extend(long_skeletons());
+    // order hazards (integer-vs-text order, length-first order, prefix-related elements)
+    skels.extend(order_skeletons());
     let st = par_range(ctx, "b.structured", skels.len() as u64, 16, &|idx, l| structured(&skels[idx as usize], l, &coll));
     total_pairs += st.local.counters[0];
     nontrivial += st.local.nontrivial;
